@@ -110,7 +110,6 @@ type addr struct {
 var addrPool = []addr{{net.ParseIP("127.0.0.1").To4(), 7946}, {net.ParseIP("10.1.2.3").To4(), 80}, {net.ParseIP("::1"), 8301},
 	{net.ParseIP("fe80::1"), 65535}, {nil, 0}, {net.ParseIP("192.168.100.200").To4(), 12345}}
 
-var wideTimes = []uint64{0, 1, 9, 10, 99, 4294967295, 4294967296, 1 << 62, 1 << 63, 1<<64 - 3, 1<<64 - 2}
 
 func (a addr) String() string { t := net.TCPAddr{IP: a.ip, Port: int(a.port)}; return t.String() }
 
@@ -158,19 +157,17 @@ func concretize(c schedCfg, rng *rand.Rand) *conc {
 	}
 	k.times = make([]uint64, c.MaxT+1)
 	if c.TCls == "wide" {
-		// a monotone selection of MaxT+1 values out of wideTimes, always containing 0
-		sel := rng.Perm(len(wideTimes) - 1)[:min(c.MaxT, len(wideTimes)-1)]
-		idx := []int{0}
-		for _, s := range sel {
-			idx = append(idx, s+1)
-		}
-		sortInts(idx)
-		for t := 0; t <= c.MaxT; t++ {
-			if t < len(idx) {
-				k.times[t] = wideTimes[idx[t]]
-			} else {
-				k.times[t] = k.times[t-1] + 1
+		// monotone 64-bit values: small steps, and each of four big jumps at a random position (the sum of all
+		// jumps stays below 2^64-2: Witness(2^64-1) wraps serf's clock to 0, finding C19-wrap-at-max, not this
+		// family's subject)
+		jumps := map[int]uint64{}
+		for _, j := range []uint64{1 << 32, 1 << 53, 1 << 62, 1 << 63} {
+			if c.MaxT >= 1 {
+				jumps[1+rng.Intn(c.MaxT)] += j
 			}
+		}
+		for t := 1; t <= c.MaxT; t++ {
+			k.times[t] = k.times[t-1] + uint64(1+rng.Intn(9)) + jumps[t]
 		}
 	} else {
 		for t := 0; t <= c.MaxT; t++ {
@@ -181,14 +178,6 @@ func concretize(c schedCfg, rng *rand.Rand) *conc {
 		k.tIdx[v] = t
 	}
 	return k
-}
-
-func sortInts(a []int) {
-	for i := 1; i < len(a); i++ {
-		for j := i; j > 0 && a[j] < a[j-1]; j-- {
-			a[j], a[j-1] = a[j-1], a[j]
-		}
-	}
 }
 
 func (k *conc) resetCfg(c schedCfg) map[string]interface{} {
@@ -287,7 +276,7 @@ type runner struct {
 	syncOp  chan string
 }
 
-const waitLong = 20 * time.Second
+const waitLong = 60 * time.Second
 
 func (r *runner) path() string { return filepath.Join(r.root, "snap") }
 
